@@ -173,7 +173,7 @@ var infixOps = map[string]opInfo{
 	"<": {6, 2}, "<=": {6, 2}, ">": {6, 2}, ">=": {6, 2},
 	"+": {7, 0}, "-": {7, 0},
 	"*": {8, 0}, "/": {8, 0}, "%": {8, 0},
-	"^": {9, 1},
+	"^":  {9, 1},
 	"or": {3, 0}, "and": {4, 0},
 }
 
